@@ -132,14 +132,21 @@ def pack(seqs, container):
     return arrs
 
 
-def explicit_python(c, X, Y):
+def order_parents(edges, n, names=None):
+    """predecessors of each node in the order the library delivers them: by predecessor name followed by the
+    name of the inserted Concat ("C…"); without names, by index (fixed-width increasing names)"""
+    key = (lambda a: a) if names is None else (lambda a: names[a] + "C")
+    return [sorted((a for a, b in edges if b == v), key=key) for v in range(n)]
+
+
+def explicit_python(c, X, Y, names=None):
     """the explicit procedure with node-level calls only, on fresh twin nodes"""
     from reservoirpy.nodes import Input as RInput
     descs = c["descs"]
     edges = [tuple(e) for e in c["edges"]]
     fb = {int(k): v for k, v in c["fb"].items()}
     n = len(descs)
-    parents = {v: sorted(a for a, b in edges if b == v) for v in range(n)}
+    parents = dict(enumerate(order_parents(edges, n, names)))
     outs = {v: [None] * len(X) for v in range(n)}
     W = {}
     reset_each = c["topo"] == "esn"
@@ -228,13 +235,14 @@ def check_fit(ctx, c):
                      else np.asarray(ro.Wout))
     # ---- explicit procedure, python twins
     try:
-        W_py = explicit_python(c, X, Y)
+        names = built[1].names if built[0] == "model" else None
+        W_py = explicit_python(c, X, Y, names)
     except Exception as e:  # noqa
         raise common.FrameworkError(f"explicit procedure (python) failed: {type(e).__name__}: {e}")
     # ---- explicit procedure, exact (driver)
     n = len(descs)
     edges = [tuple(e) for e in c["edges"]]
-    parents = [sorted(a for a, b_ in edges if b_ == v) for v in range(n)]
+    parents = order_parents(edges, n, names)
     fbl = [None] * n
     for k, v in c["fb"].items():
         fbl[int(k)] = v
